@@ -350,3 +350,25 @@ PROPS["C12"] = dict(
          "hash of the case description; non-trivial = every case (each runs >= 5 faults)",
     assumptions=["a Tuple holds arbitrary pointers, so wrong-typed / NULL elements are not faults for Tuple"],
 )
+
+PROPS["C10"] = dict(
+    harness="c10_hash_copy.c", level="exploration",
+    technique="runtime metamorphic oracle: values equal by construction (allocation classes, construction histories, "
+              "container kinds) must be eq and hash equally; copy/assign results eq with equal hash; swap exchanges "
+              "canonical snapshots; hash_data alignment sweep under ASan",
+    level_text="Exploration: per case one group each of Int/Float(+-0, denormals, random bits)/String(all bytes)/"
+               "Type/Ref/plain struct in stack, heap, raw and embedded form; six sequences with the same contents "
+               "built through four histories across Array/List/Tuple (all 15 pairs); Table and Tree with the same "
+               "bindings through three histories; copy, assign and swap of each; hash_data for lengths 0..64 at 8 "
+               "alignments with varying neighbours in exact-size heap blocks.",
+    level_note="Equality by construction is trusted (the harness writes the same value twice). Identity with "
+               "MurmurHash is not required - the statement asks for a function of the value.",
+    quick=[("asan", 16, 150)],
+    thorough=[("asan", 16, 6000), ("plain", 16, 20000)],
+    floors={"quick": {"allocation_class_groups": 500, "signed_zero_pairs": 100, "cross_kind_equal_pairs": 2000,
+                      "sequence_history_groups": 500, "map_history_groups": 1000, "swaps": 2000,
+                      "hash_data_alignment_sweeps": 500, "table_eq_reproducer_runs": 1}},
+    rule="case = one group of scalar allocation classes, six equal sequences, two times three equal maps, a hash_data "
+         "sweep; distinct = hash of the case's first random draw; non-trivial = every case",
+    assumptions=["NaN excluded", "Box containers are not copied"],
+)
